@@ -15,7 +15,14 @@ fn iter_case(ones: bool, inp: &[u64]) -> Result<(), String> {
     let len = inp[0] as usize;
     let extra = inp[1] as usize;
     let words: Vec<usize> = inp[2..].iter().map(|&x| x as usize).collect();
-    if len > words.len() * 64 { return Ok(()); }
+    if len > words.len() * 64 {
+        // the public constructors accept ANY length: draining such an iterator must stay inside the backend
+        // (an out-of-bounds read aborts the process under the debug UB checks; the last TRY is then the witness)
+        let steps = words.len() * 64 + 4;
+        if ones { let mut it = sux::bits::bit_vec::OnesIterator::new(&words, len); for _ in 0..steps { if it.next().is_none() { break; } } }
+        else { let mut it = sux::bits::bit_vec::ZerosIterator::new(&words, len); for _ in 0..steps { if it.next().is_none() { break; } } }
+        return Ok(());
+    }
     let bv = mk(&words, len);
     let m = model(&words, len);
     let expect: Vec<usize> = (0..len).filter(|&i| m[i] == ones).collect();
@@ -110,6 +117,9 @@ pub fn run(case: &str, ctx: &mut Ctx, one: Option<&str>, rng: &mut Rng, budget: 
                         }
                     }
                 }
+            }
+            if case != "bitvec_stale" {
+                for nw in 0..=2usize { for len in [1u64, 64, 65, 200, 1000] { let mut v = vec![len, 0]; for _ in 0..nw { v.push(0); } let s = fmt_list(&v); ctx.trial(&s, false, || run_one(case, &v)); } }
             }
             for _ in 0..budget {
                 let nw = rng.below(5) as usize;
